@@ -65,7 +65,9 @@ def run(unit, functions, repo, scratch, timeout=900):
     runner = os.path.join(root, "runner")
     os.makedirs(os.path.join(runner, "src"))
     open(os.path.join(runner, "Cargo.toml"), "w").write(
-        '[package]\nname = "verif-bounded-runner"\nversion = "0.0.0"\nedition = "2021"\n\n[dependencies]\nslotted-egraphs = { path = "../crate" }\n\n[workspace]\n')
+        '[package]\nname = "verif-bounded-runner"\nversion = "0.0.0"\nedition = "2021"\n\n[dependencies]\nslotted-egraphs = { path = "../crate" }\n\n'
+        '# the pinned build takes the derive crate from the registry; the patch makes an edit of <repo>/slotted-egraphs-derive visible\n'
+        '[patch.crates-io]\nslotted-egraphs-derive = { path = "../crate/slotted-egraphs-derive" }\n\n[workspace]\n')
     open(os.path.join(runner, "src", "main.rs"), "w").write(
         'fn main() {\n    let only: Vec<String> = std::env::args().skip(1).collect();\n'
         '    std::panic::set_hook(Box::new(|info| { let c = slotted_egraphs::verif_bounded::VERIF_CASE.lock().map(|g| g.clone()).unwrap_or_default(); println!("PANICKED {} ||| case: {}", info.to_string().replace("\\n", " "), c); }));\n'
